@@ -551,18 +551,122 @@ def must_pass(f, from_eid, pred):
             if pred(f, i):
                 hit.add(bid)
                 break
+    # Paths are followed with the values of constant-only flags (locals that are only ever assigned integer constants):
+    # `discard = TRUE; ... if (discard) { cleanup }` - the edge the known value contradicts is not taken.
+    flags = _constant_only_flags(f)
+    val0 = _flag_updates(f, b0.elems[n0 + 1:], {}, flags)
     seen = set()
-    st = [s for s, _ in f.edges(bid0)]
+    st = [(s, lab, bid0, val0) for s, lab in f.edges(bid0)]
     while st:
-        n = st.pop()
-        if n in seen or n in hit:
+        n, lab, src, val = st.pop()
+        if lab in ("T", "F") and val and not _edge_agrees(f, src, lab, val):
             continue
-        seen.add(n)
+        key = (n, tuple(sorted(val.items())))
+        if key in seen or n in hit:
+            continue
+        seen.add(key)
+        if len(seen) > 20000:
+            return False, n
         if n == f.exit:
             return False, n
-        for s, _ in f.edges(n):
-            st.append(s)
+        val2 = _flag_updates(f, f.blocks[n].elems, val, flags) if flags else val
+        for s, l2 in f.edges(n):
+            st.append((s, l2, n, val2))
     return True, None
+
+
+def exit_reachable_avoiding(f, start_bid, hit):
+    """Block through which the exit is reached from the start of block start_bid without entering a block of `hit`, or
+    None.  Like must_pass the search carries the values of constant-only flags and does not take contradicted edges."""
+    flags = _constant_only_flags(f)
+    seen = set()
+    st = [(start_bid, None, None, {})]
+    while st:
+        n, lab, src, val = st.pop()
+        if lab in ("T", "F") and val and not _edge_agrees(f, src, lab, val):
+            continue
+        key = (n, tuple(sorted(val.items())))
+        if key in seen or n in hit:
+            continue
+        seen.add(key)
+        if n == f.exit or len(seen) > 20000:
+            return n
+        val2 = _flag_updates(f, f.blocks[n].elems, val, flags) if flags else val
+        for s, l2 in f.edges(n):
+            st.append((s, l2, n, val2))
+    return None
+
+
+def _constant_only_flags(f):
+    c = f._cache.get("const_only_flags")
+    if c is None:
+        vals, bad = {}, set()
+        for bid, i in flow.all_events(f):
+            for lhs, var, op, rhs in flow.stores(f, i):
+                nm = var["name"] if var is not None else None
+                if nm is None and lhs is not None:
+                    le = f.exprs[ex.skip(f, lhs)]
+                    if le["k"] == "ref" and le.get("dk") == "local":
+                        nm = le["name"]
+                if nm is None:
+                    continue
+                if rhs is None:
+                    if var is None:
+                        bad.add(nm)
+                    continue
+                v = ex.const(f, rhs) if op == "=" else None
+                if v is None:
+                    bad.add(nm)
+                else:
+                    vals.setdefault(nm, set()).add(v)
+        taken = {f.exprs[ex.skip(f, x["c"][0])].get("name") for x in f.exprs
+                 if x["k"] == "un" and x["op"] == "&" and x.get("c") and f.exprs[ex.skip(f, x["c"][0])]["k"] == "ref"}
+        c = {n for n in vals if n not in bad and n not in taken and len(vals[n]) >= 2}
+        f._cache["const_only_flags"] = c
+    return c
+
+
+def _flag_updates(f, elems, val, flags):
+    if not flags:
+        return val
+    out = val
+    for i in elems:
+        if not flow.is_event(f, i):
+            continue
+        for lhs, var, op, rhs in flow.stores(f, i):
+            nm = var["name"] if var is not None else None
+            if nm is None and lhs is not None:
+                le = f.exprs[ex.skip(f, lhs)]
+                if le["k"] == "ref" and le.get("dk") == "local":
+                    nm = le["name"]
+            if nm in flags and rhs is not None and op == "=":
+                v = ex.const(f, rhs)
+                if v is not None:
+                    if out is val:
+                        out = dict(val)
+                    out[nm] = v
+    return out
+
+
+_REL = {"<": lambda a, b: a < b, "<=": lambda a, b: a <= b, ">": lambda a, b: a > b, ">=": lambda a, b: a >= b,
+        "==": lambda a, b: a == b, "!=": lambda a, b: a != b}
+
+
+def _edge_agrees(f, src, lab, val):
+    for a in edge_atoms(f, src, lab):
+        if a.R is None or a.R.const is None or a.L.fields or a.L.calls or len(a.L.locals) != 1 or a.L.incr is not None or a.L.node is None:
+            continue
+        e = f.exprs[ex.skip(f, a.L.node)]
+        k = 0
+        while e["k"] == "cast" and e.get("c") and k < 6:
+            e = f.exprs[ex.skip(f, e["c"][0])]
+            k += 1
+        if e["k"] != "ref":
+            continue
+        nm = e.get("name")
+        if nm in val and a.rel in _REL and not _REL[a.rel](val[nm], a.R.const):
+            return False
+    return True
 
 
 def reaches(f, from_bid, pred, avoid=()):
